@@ -215,6 +215,8 @@ func init() {
 				}
 			}
 			runPureSet(c, r, pm, 12)
+			ls := runLASTSTEP(c, r, "LASTSTEP")
+			r.RequireMin("LASTSTEP obligations (returns of evalPathStep, flag passed by evalPath)", ls, 3)
 			r.Assume("values registered with RegisterVars and inputs passed to Eval do not contain *jsonata.sequence (unexported type: impossible from outside the package)")
 		},
 	})
@@ -236,7 +238,7 @@ func init() {
 		ID:          "C03",
 		Explanation: "Decides four structural clauses of the operator table: (FIN) every float produced by evalNumericOperator/evalNegation/evalRange passes two-sided math.IsInf and math.IsNaN tests whose true edges leave by an error return before it is boxed into a value (bit-set dataflow {Inf,NaN} with dominance-based guards); (GUARD) evalRange's size test 0<=size<=10,000,000 dominates the allocation and the constant is the property's; (LAZY) in evalConditional Then/Else are evaluated only on the true/false edge of jlib.Boolean(cond) and no path runs both; (TAB) every switch over NumericOperator/ComparisonOperator/BooleanOperator in the evaluator covers all declared constants, and each parser led is registered for exactly the tokens its switch handles, so no 'unrecognised operator' panic is reachable; (OPTAB) the value each operator's case computes, read from the SSA of the three operator evaluators: + - * / are the float operation on (left, right) in that order, % is math.Mod(left, right), = != < <= > >= in go through eq/lt/lte/in with the documented negations and operand order, and/or are the short-circuit of jlib.Boolean(left), jlib.Boolean(right), & boxes conv(left) + conv(right) on every success path with conv = \"\" for a missing value and jlib.String otherwise, lt compares strictly left with right, and evalNumericOperator contains no arithmetic outside those five cases (no fast path). NOT decided: operand kind checking and the error chosen for each kind combination; eq's deep comparison.",
 		Rule:        commonRule,
-		Fixtures:    []string{"fin", "guard", "tab", "w"},
+		Fixtures:    []string{"fin", "guard", "tab", "w", "shape"},
 		Run: func(c *Ctx, r *Result) {
 			e := newFIN(c, c.G)
 			n := runFINBoxing(c, e, r, "FIN", c.fnsNamed(r, "jsonata.evalNumericOperator", "jsonata.evalNegation", "jsonata.evalRange"))
@@ -250,6 +252,15 @@ func init() {
 			ot := runOPTAB(c, r, "OPTAB")
 			r.RequireMin("OPTAB operator-table obligations", ot, 17)
 			runPureSet(c, r, c.machinery(r, []string{"!jsonata.evalNumericOperator", "!jsonata.evalComparisonOperator", "!jsonata.evalBooleanOperator", "jsonata.evalStringConcatenation", "jsonata.evalRange", "jsonata.evalConditional", "jsonata.evalNegation"}, map[string]bool{"jsonata": true}, []string{"jsonata.eval"}), 3)
+			// = / != / in on objects: a hand-written map comparison compares sizes and presence
+			var ef []*ssa.Function
+			for _, f := range libFuncsIn(c, c.REval) {
+				if f.Pkg != nil && f.Pkg.Pkg.Name() == "jsonata" {
+					ef = append(ef, f)
+				}
+			}
+			runMAPEQ(c, r, "MAPEQ", ef)
+			r.Count("MAPEQ functions scanned", len(ef))
 			r.Assume("numbers entering evaluation (decoded JSON, number literals) are finite; FIN shows finiteness is preserved")
 		},
 	})
@@ -385,7 +396,7 @@ func init() {
 		ID:          "C15",
 		Explanation: "Decides: (W) the array, higher-order and aggregate built-ins of jlib/array.go, hof.go and aggregate.go write only memory they allocated themselves — no append into the spare capacity of an argument, no in-place reversal or sort — so a result never shares storage with an argument or with another result; (HASH) no function under $distinct (and nothing else under Eval) uses a map with interface keys indexed by a dynamically typed value (panics on arrays/objects/functions) or an fmt.Sprint rendering as the identity of a value (conflates {\"a\":1} and {\"a\":\"1\"}); and FIN for the aggregate functions $sum/$max/$min/$average (no unguarded overflow). NOT decided: every other definitional clause (visit order, fold direction, permutation), which are value-level.",
 		Rule:        commonRule,
-		Fixtures:    []string{"hash", "fin", "w"},
+		Fixtures:    []string{"hash", "fin", "w", "shape"},
 		Run: func(c *Ctx, r *Result) {
 			d := c.mustFn(r, "jlib.Distinct")
 			if d != nil {
@@ -421,6 +432,15 @@ func init() {
 				return files[filepath.Base(c.W.Fset.Position(s.ins.Pos()).Filename)] || files[filepath.Base(c.W.Fset.Position(exceptionRoot(s.f).Pos()).Filename)]
 			})
 			r.RequireMin("W write sites examined (root Eval/EvalBytes/String)", r.Counts["W write sites examined (root Eval/EvalBytes/String)"], 20)
+			// $distinct and friends: a hand-written map comparison compares sizes and presence
+			var mf []*ssa.Function
+			for _, f := range libFuncsIn(c, c.REval) {
+				if f.Pkg != nil && f.Pkg.Pkg.Name() == "jlib" {
+					mf = append(mf, f)
+				}
+			}
+			runMAPEQ(c, r, "MAPEQ", mf)
+			r.Count("MAPEQ functions scanned", len(mf))
 			// every member visited once, in order
 			var cf []*ssa.Function
 			for _, f := range libFuncsIn(c, c.REval) {
@@ -436,12 +456,25 @@ func init() {
 		ID:          "C16",
 		Explanation: "Decides: (UNIT) in Substring, Pad, positionOfNthRune and abs every integer addition, comparison, string-slice bound and positionOfNthRune argument keeps code-point counts (utf8.RuneCountInString, the built-ins' integer parameters) apart from byte offsets (len(string), strings.Index*, range keys, decode widths) — a len(s) where a rune count is meant passes every ASCII sample; (CODEC) $base64encode/$base64decode reference the same base64 encoding variable, $encodeUrlComponent/$decodeUrlComponent use a matching escape/unescape pair of net/url, and $length is bound to utf8.RuneCountInString; (W) the string built-ins are functions of their arguments: no write to pre-existing memory and no process-wide cache in $substring*, $pad, $trim, $contains, $split, $join, $match, $replace and the encode/decode functions or their jlib callees. NOT decided: the laws as string equalities; $split/$join/$replace/$trim.",
 		Rule:        commonRule,
-		Fixtures:    []string{"unit", "w"},
+		Fixtures:    []string{"unit", "w", "shape"},
 		Run: func(c *Ctx, r *Result) {
 			runUNIT(c, r, "UNIT")
 			runCODEC(c, r, "CODEC")
 			runPureFamily(c, r, []string{"jlib.Substring", "jlib.SubstringBefore", "jlib.SubstringAfter", "jlib.Pad", "jlib.Trim", "jlib.Contains", "jlib.Split", "jlib.Join", "jlib.Match", "jlib.Replace",
 				"jlib.Base64Encode", "jlib.Base64Decode", "jlib.EncodeURL", "jlib.EncodeURLComponent", "jlib.DecodeURL"}, map[string]bool{"jlib": true}, 20)
+			// separators decided by position, never by "the output is not empty yet"
+			var sfns []*ssa.Function
+			for _, f := range c.G.Funcs {
+				if pk := fnPkg(f); pk != nil && c.REval.Set[f] && (pk.Name() == "jlib" || pk.Name() == "jxpath") {
+					sfns = append(sfns, f)
+				}
+			}
+			sortFns(sfns)
+			runSEPLEN(c, r, "SEPLEN", sfns)
+			r.Count("SEPLEN functions scanned", len(sfns))
+			if len(sfns) < 100 {
+				r.LoseAnchor("SEPLEN: only %d jlib/jxpath functions under Eval (>= 100 expected)", len(sfns))
+			}
 		},
 	})
 	register(&propDef{
